@@ -4,9 +4,11 @@ import (
 	"bytes"
 	"fmt"
 	"runtime"
+	"runtime/debug"
 	"strings"
 	"unicode/utf8"
 
+	"verif/simrt"
 	"zombiezen.com/go/commonmark"
 )
 
@@ -126,6 +128,7 @@ func genStream(r *Rng, prop, phase string, knob bool, pEarly, pErr float64) []*S
 	rs.Scribble = genScribble(r)
 	rs.Rich = r.Chance(0.2)
 	rs.Consumer = genConsumer(r)
+	rs.Companion = genCompanion(r)
 	if r.Chance(0.04) {
 		rs.GC = r.Pick([]string{"mid", "end", "end", "both"})
 		rs.GCEvery = r.Range(1, 4)
@@ -156,6 +159,11 @@ func genStream(r *Rng, prop, phase string, knob bool, pEarly, pErr float64) []*S
 				s.Knobs["maxBlockSize"] = need + r.Range(3, 48)
 			}
 		}
+		if c, lim := rs.Companion, s.Knobs["maxBlockSize"]; c != nil && lim > 0 && len(c.Doc)+2*bytes.Count(c.Doc, []byte{0})+8 > lim {
+			// the knobs are process-wide: the companion document must be inside
+			// the quantifier (below the block-size limit) too
+			rs.Companion = nil
+		}
 	}
 	return []*Scenario{s}
 }
@@ -172,8 +180,25 @@ func genConsumer(r *Rng) string {
 		return "eager"
 	case x < 3:
 		return "eager-use"
+	case x < 4:
+		return "reused-ip"
 	}
 	return ""
+}
+
+// genCompanion: one run in eight multiplexes a second parse with the main one.
+func genCompanion(r *Rng) *CompanionScn {
+	if !r.Chance(0.125) {
+		return nil
+	}
+	c := &CompanionScn{Doc: genDoc(r, 512), Mode: "stream", Every: r.Range(1, 3), Steps: r.Range(1, 3), Chunk: []int{1, 3, 16, 64, 8192}[r.Intn(5)]}
+	if r.Chance(0.25) {
+		c.Mode = "parse"
+	}
+	if r.Chance(0.3) {
+		c.Mode += "@read"
+	}
+	return c
 }
 
 // genScribble: one run in four uses a reader that treats the unfilled part of
@@ -474,6 +499,12 @@ func genTotality(r *Rng, phase string) []*Scenario {
 			s.Renders = append(s.Renders, all[r.Intn(len(all))])
 		}
 	}
+	if r.Chance(0.08) && len(s.Renders) > 0 {
+		// a SoftBreakBehavior outside the named constants
+		c := s.Renders[r.Intn(len(s.Renders))]
+		c.SoftBreak = oddSoftBreaks[r.Intn(len(oddSoftBreaks))]
+		s.Renders = append(s.Renders, c)
+	}
 	s.Walk = genWalkScn(r, 8)
 	switch phase {
 	case "healthy":
@@ -718,6 +749,27 @@ func retain(blocks []*commonmark.RootBlock, what string) {
 
 // evaluate runs one scenario and updates the statistics.  It is a pure
 // function of the scenario and the code under test.
+// panicRaisedInLibrary: in the stack of a recovered panic, is the frame that
+// raised it (the first one below runtime's panic machinery) library code?
+func panicRaisedInLibrary(stack string) bool {
+	lines := strings.Split(stack, "\n")
+	seenPanic := false
+	for _, l := range lines {
+		if strings.HasPrefix(l, "\t") || l == "" || strings.HasPrefix(l, "goroutine ") {
+			continue
+		}
+		if strings.HasPrefix(l, "panic(") {
+			seenPanic = true
+			continue
+		}
+		if !seenPanic || strings.HasPrefix(l, "runtime.") || strings.HasPrefix(l, "runtime/") {
+			continue
+		}
+		return strings.HasPrefix(l, "zombiezen.com/go/commonmark")
+	}
+	return false
+}
+
 func evaluate(s *Scenario, st *runStats) (fail *Failure) {
 	for _, p := range s.Prelude {
 		func() {
@@ -725,6 +777,23 @@ func evaluate(s *Scenario, st *runStats) (fail *Failure) {
 			evaluate(p, newStats())
 		}()
 	}
+	defer func() {
+		// a panic that escapes the per-check guards (the harness taking a
+		// snapshot of a block the library has corrupted after delivery, a
+		// retained parse re-read during a later evaluation): if it was raised
+		// INSIDE the library - an accessor of the public API panicking on the
+		// library's own tree - it is a failure of this evaluation; a panic raised
+		// in harness code is a harness defect and goes on to end the process
+		if r := recover(); r != nil {
+			if _, ok := r.(simrt.BudgetExceeded); !ok && !panicRaisedInLibrary(string(debug.Stack())) {
+				panic(r)
+			}
+			fail = &Failure{Check: "panic", Observed: fmt.Sprint(r), Stack: trunc(string(debug.Stack()), 6000)}
+			if be, ok := r.(simrt.BudgetExceeded); ok {
+				fail = &Failure{Check: "step-budget", Observed: fmt.Sprintf("exceeded %d yield steps", be.Steps)}
+			}
+		}
+	}()
 	st.Evaluations++
 	st.Outcome = 0
 	evalSeq++
@@ -734,6 +803,13 @@ func evaluate(s *Scenario, st *runStats) (fail *Failure) {
 	nontrivial := false
 	applyKnobs(s.Knobs)
 	defer applyKnobs(nil)
+	envBefore := simrt.EnvReads()
+	applyEnv(s.Env)
+	defer func() {
+		if n := simrt.EnvReads() - envBefore; n > 0 {
+			st.Probes["code_under_test_read_clock_cpu_count_or_random_source"] += int(n)
+		}
+	}()
 	if len(s.Doc) > 256<<10 {
 		// megabyte documents: collect after each (a pure function of the history)
 		defer runtime.GC()
@@ -813,6 +889,9 @@ func evaluate(s *Scenario, st *runStats) (fail *Failure) {
 		}
 		if obs.WriterFail > 0 {
 			st.Faults["writer_failure"] += obs.WriterFail
+		}
+		if obs.MatcherPanics > 0 {
+			st.Faults["reference_matcher_panicked_caller_recovered_and_reused_the_parser"] += obs.MatcherPanics
 		}
 		if obs.HealthyAfterFailed > 0 {
 			st.Probes["healthy_format_and_render_after_a_failed_call"] += obs.HealthyAfterFailed
@@ -1032,6 +1111,13 @@ func streamStats(s *Scenario, obs *streamObs, st *runStats) (nontrivial bool) {
 	}
 	if obs.Collections > 0 {
 		st.Faults["garbage_collection_at_a_chosen_instant"] += obs.Collections
+	}
+	if obs.ReusedIP {
+		st.Probes["blocks_completed_through_one_long_lived_InlineParser_value"]++
+	}
+	if obs.CompTurns > 0 {
+		st.Probes["caller_multiplexed_a_second_parse_"+s.Reader.Companion.Mode]++
+		st.Probes["companion_parse_turns_between_NextBlock_calls"] += obs.CompTurns
 	}
 	if obs.EagerRewrites > 0 {
 		st.Probes["consumer_completed_blocks_between_NextBlock_calls"] += obs.EagerRewrites
